@@ -23,7 +23,9 @@ RULE = ('cases = corpus + random scenarios: 1-2 cookies set with Response.set_co
         'secret), then Request.get_cookie and Request.cookies; in 30% of the scenarios 1-3 further get_cookie reads on '
         'the SAME request (names of the cookies sent, secrets from right / another / empty / None), each compared with '
         'a fresh request; pickle.loads observed through a recording proxy. '
-        'Plus response-side sequences (8%): set_cookie / delete_cookie on a Response, copy(HTTPResponse), further '
+        'Plus response-side sequences (8%): set_cookie / delete_cookie on a Response, copy(HTTPResponse), a raised or '
+        'returned HTTPResponse / HTTPError with cookies of its own applied to it (directly and through an Ombott app '
+        'whose before_request hook sets the cookies), further '
         'set / delete on the copy or the original, both header lists emitted and each read back through a new Request. '
         'Plus primitive streams: http.cookies._quote/_unquote on arbitrary text, SimpleCookie parsing of arbitrary '
         'and malformed Cookie headers (through Request.cookies), base64 encode / lenient decode, HMAC-MD5. '
@@ -363,6 +365,10 @@ def corpus():
                                          ['@hdr'], ['@reinit', 'a="thr\\145e"'], ['@attr', 'a', 'utf8'], ['@copyreq'], ('a', None),
                                          ['@sethdr', 'a=two; b=3'], ['@sethdr', 'a=two; b=3'], ['@decode', None]]),
         scn([('a', obj, S)], reads=[['@copyreq'], ('a', S), ['@sethdr', 'a=x@y'], ['@item', 'a'], ['@decode', None], ['@hdr']]),
+        # one Request object, the next request's environ handed over by assignment (req.environ = env2)
+        scn([('a', obj, S)], reads=[('a', S), ['@assign', 'a=!forged?gAWVCQAAAAAAAACMAWGUSwGGlC4='], ('a', S), ['@item', 'a'],
+                                    ['@assign', 'b=2'], ('a', S), ['@item', 'b'], ['@hdr']]),
+        scn([('a', 'one', None)], reads=[['@assign', 'a=two'], ('a', None), ['@attr', 'a', 'utf8'], ['@assign', ''], ('a', None)]),
         # a response and its copy (redirect() copies the response): later changes must not leak either way
         dict(mode='resp', ops=[['set', 'r', 'a', 'v1', None], ['copy'], ['set', 'c', 'a', 'v2', None]],
              reads=[['a', None]]),
@@ -374,6 +380,18 @@ def corpus():
                                ['copy'], ['set', 'c', 'x', 'y', None]], reads=[['a', None], ['b', None]]),
         dict(mode='resp', ops=[['set', 'c', 'a', 'early', None], ['copy'], ['set', 'c', 'a b', 'bad', None]],
              reads=[['a', None]]),
+        # a hook re-issues "session" on the application's response, the handler raises a redirect with a NEW signed
+        # "session": the client must get the raised one's (HTTPResponse.apply replaces the jar)
+        dict(mode='resp', wsgi=True, ops=[['set', 'r', 'session', {'u': 'old'}, S], ['set', 'r', 'lang', 'en', None],
+                                          ['apply', 'HTTPResponse', 'raise', [['session', {'u': 'new'}, S]]]],
+             reads=[['session', S], ['lang', None]]),
+        dict(mode='resp', wsgi=True, ops=[['set', 'r', 'a', 'hook', None], ['apply', 'HTTPError', 'return', [['a', 'err', None]]]],
+             reads=[['a', None]]),
+        dict(mode='resp', wsgi=True, ops=[['set', 'r', 'a', 'hook', None], ['apply', 'HTTPResponse', 'return', []]],
+             reads=[['a', None]]),
+        dict(mode='resp', ops=[['set', 'r', 'a', 'v1', None], ['apply', 'HTTPResponse', 'raise', [['a', 'v2', None], ['b', [1], S]]],
+                               ['set', 'r', 'a', 'v3', None]], reads=[['a', None], ['b', S]]),
+        dict(mode='resp', wsgi=True, ops=[['set', 'r', 'a', 'v', None]], reads=[['a', None]]),
         dict(mode='quote', s=''), dict(mode='quote', s='a"b\\c;\n\xff\u0100'), dict(mode='quote', s='"a\\"'),
         dict(mode='quote', s='"\\012\\0\\\n\\"'), dict(mode='quote', s='"'), dict(mode='quote', s='"\\'),
         dict(mode='quote', s='"\\400\\377\\38"'),
@@ -588,7 +606,9 @@ def add_reads(rng, c):
         n = rng.choice(names)
         extra = [['@item', n], ['@attr', n, rng.choice(['utf8', 'utf8', 'latin1'])], ['@decode', rng.choice([None, None, 'latin1'])],
                  ['@hdr'], ['@copyreq'], ['@sethdr', rng.choice([None, '', n + '=replaced', 'zz=1; ' + n + '="q\\"x"', gen_parse(rng)])],
-                 ['@reinit', rng.choice(['', n + '=fresh', gen_parse(rng)])]]
+                 ['@reinit', rng.choice(['', n + '=fresh', gen_parse(rng)])],
+                 ['@assign', rng.choice(['', n + '=assigned', 'other=1', gen_parse(rng)])],
+                 ['@assign', n + '=!forged?gAWVCQAAAAAAAACMAWGUSwGGlC4=']]
         for _ in range(rng.randrange(1, 4)):
             reads.insert(rng.randrange(0, len(reads) + 1), rng.choice(extra))
     c['reads'] = reads
@@ -616,6 +636,16 @@ def gen_resp(rng):
         v, s = val()
         return ['set', who, n, v, s]
     ops = [op('r') for _ in range(rng.randrange(0, 4))]
+    reads = [[n, s] for n in names for s in (None, sec)]
+    if rng.random() < 0.35:
+        # the application's response has cookies (a hook), and a raised / returned HTTPResponse / HTTPError carries
+        # cookies too — same names among them; directly through apply() and through the WSGI application
+        cookies = []
+        for _ in range(rng.choice([0, 1, 1, 2])):
+            v, s = val()
+            cookies.append([rng.choice(names), v, s])
+        ops.append(['apply', rng.choice(['HTTPResponse', 'HTTPResponse', 'HTTPError']), rng.choice(['raise', 'return']), cookies])
+        return dict(mode='resp', ops=ops, reads=reads, wsgi=rng.random() < 0.6)
     if rng.random() < 0.9:
         ops.append(['copy'])
         ops += [op(rng.choice(['r', 'c', 'c'])) for _ in range(rng.randrange(1, 5))]
@@ -817,7 +847,7 @@ def enc_read(rd):
         return [3, 0 if rd[1] == 'latin1' else 1]
     if kind == 'hdr':
         return [4]
-    if kind in ('sethdr', 'reinit'):
+    if kind in ('sethdr', 'reinit', 'assign'):
         return [5] + opt_str(rd[1])
     return None                                    # copyreq: no effect on what is read
 
@@ -851,8 +881,15 @@ def project(obs, case):
 
 
 def rcase_cookies(case):
-    """the set operations of a resp case in the shape read_once / pk_of expect"""
-    return [dict(name=o[2], value=o[3], secret=o[4]) for o in case['ops'] if o[0] == 'set']
+    """the cookies set by a resp case (set ops, and the cookies of an applied HTTPResponse) in the shape
+    read_once / pk_of expect; same order as Cookie.v:rop_table"""
+    out = []
+    for o in case['ops']:
+        if o[0] == 'set':
+            out.append(dict(name=o[2], value=o[3], secret=o[4]))
+        elif o[0] == 'apply':
+            out += [dict(name=n, value=v, secret=s) for n, v, s in o[3]]
+    return out
 
 
 def strip_attrs(w):
@@ -872,40 +909,96 @@ def run_resp(case):
     ch.pickle = proxy
     fake = dict(cookies=rcase_cookies(case))
     try:
-        resp = {'r': Response(), 'c': None}
+        from ombott.response import HTTPError
+        from ombott import Ombott
         codes = []
-        for o in case['ops']:
+
+        def classify(f):
             try:
+                f()
+                return 0
+            except UnicodeEncodeError:
+                return 4
+            except TypeError:
+                return 1
+            except ValueError:
+                return 2
+            except CookieError:
+                return 3
+
+        def build(o):
+            """the HTTPResponse / HTTPError of an apply op with its cookies set; None + code when set_cookie raised"""
+            h = HTTPError(404, 'gone') if o[1] == 'HTTPError' else HTTPResponse('', 303)
+            for n, v, s in o[3]:
+                code = classify(lambda: h.set_cookie(n, mat(v), secret=s))
+                if code:
+                    return None, code
+            return h, 0
+
+        def simple(x, o):
+            if o[0] == 'set':
+                return classify(lambda: x.set_cookie(o[2], mat(o[3]), secret=o[4]))
+            return classify(lambda: x.delete_cookie(o[2]))
+
+        wsgi_wires = None
+        if case.get('wsgi'):
+            # through the application: the plain ops run in a before_request hook on app.response, the apply op
+            # is a handler that raises or returns the HTTPResponse / HTTPError
+            app = Ombott()
+            apply_ops = [o for o in case['ops'] if o[0] == 'apply']
+
+            def hook():
+                for o in case['ops']:
+                    if o[0] in ('set', 'del') and o[1] == 'r':
+                        codes.append(simple(app.response, o))
+
+            def handler():
+                for o in apply_ops[:1]:
+                    h, code = build(o)
+                    codes.append(code)
+                    if h is not None:
+                        if o[2] == 'raise':
+                            raise h
+                        return h
+                return ''
+            app.add_hook('before_request', hook)
+            app.route('/', 'GET', handler)
+            got = []
+            list(app(environ('GET', '/'), lambda st, hd, exc=None: got.append(hd)))
+            wsgi_wires = [cps(v) for k, v in got[0] if k == 'Set-Cookie'] if len(got) == 1 else 'start_response x%d' % len(got)
+            resp = {'r': app.response, 'c': None}
+        else:
+            resp = {'r': Response(), 'c': None}
+            for o in case['ops']:
                 if o[0] == 'copy':
-                    resp['c'] = resp['r'].copy(HTTPResponse)
+                    codes.append(classify(lambda: resp.__setitem__('c', resp['r'].copy(HTTPResponse))))
+                elif o[0] == 'apply':
+                    h, code = build(o)
+                    codes.append(code)
+                    if h is not None:
+                        h.apply(resp['r'])
                 elif resp[o[1]] is None:
                     codes.append(7)
-                    continue
-                elif o[0] == 'set':
-                    resp[o[1]].set_cookie(o[2], mat(o[3]), secret=o[4])
                 else:
-                    resp[o[1]].delete_cookie(o[2])
-                codes.append(0)
-            except UnicodeEncodeError:
-                codes.append(4)
-            except TypeError:
-                codes.append(1)
-            except ValueError:
-                codes.append(2)
-            except CookieError:
-                codes.append(3)
+                    codes.append(simple(resp[o[1]], o))
         out = dict(codes=codes)
         for who in ('r', 'c'):
             x = resp[who]
             if x is None:
                 out[who] = None
                 continue
-            try:
-                hl = x.headerlist
-            except UnicodeEncodeError:
-                out[who] = 'emit_error'
-                continue
-            wires = [cps(v) for k, v in hl if k == 'Set-Cookie']
+            if wsgi_wires is not None:
+                wires = wsgi_wires                   # what start_response received
+                if isinstance(wires, str):
+                    out[who] = wires
+                    continue
+            else:
+                try:
+                    hl = x.headerlist
+                except UnicodeEncodeError:
+                    out[who] = 'emit_error'
+                    continue
+                wires = [cps(v) for k, v in hl if k == 'Set-Cookie']
             hdr = []
             for i, w in enumerate(wires):
                 hdr += ([59, 32] if i else []) + strip_attrs(w)
@@ -981,6 +1074,10 @@ def run_scn(case):
                 rq.__init__(environ(HTTP_COOKIE=rd[1]))
                 cur = rd[1]
                 continue
+            if kind == 'assign':                   # the documented way to hand a Request object the next environ
+                rq.environ = environ(HTTP_COOKIE=rd[1])
+                cur = rd[1]
+                continue
             if kind == 'copyreq':
                 rq = rq.copy()
                 continue
@@ -1020,6 +1117,8 @@ def encode(case):
                 return [0, oc] + spec(dict(name=o[2], value=o[3], secret=o[4]))
             if o[0] == 'del':
                 return [1, oc] + enc_str(cps(o[2]))
+            if o[0] == 'apply':
+                return [3] + enc_list([dict(name=n, value=v, secret=s) for n, v, s in o[3]], spec)
             return [2]
         return [5] + enc_list(case['ops'], eop) + enc_list(case['reads'], lambda r: enc_str(cps(r[0])) + opt_str(r[1]))
 
@@ -1128,6 +1227,14 @@ def oracle_resp(case, obs):
             continue
         if o[0] == 'copy':
             exp['c'] = dict(exp['r'])
+        elif o[0] == 'apply':
+            # the raised / returned response's cookies are the ones to be emitted for their names; whether cookies
+            # that only the application's response had are still sent is not part of the property (today they
+            # are dropped: HTTPResponse.apply replaces the jar; the model pins that)
+            if o[3]:
+                exp['r'] = {n: ('optional', v) for n, v in exp['r'].items()}
+                for n, v, s in o[3]:
+                    exp['r'][n] = (v, s)
         elif o[0] == 'set':
             exp[o[1]][o[2]] = (o[3], o[4])
         else:
@@ -1145,6 +1252,10 @@ def oracle_resp(case, obs):
             if name not in e:
                 return '%s emits cookie %r that was never set on it' % (label, name)
         for name, ev in e.items():
+            if isinstance(ev, tuple) and ev[0] == 'optional':
+                if name not in seen:
+                    continue
+                ev = ev[1]
             if ev is DELETED:
                 if seen.get(name, '') != '':
                     return '%s: cookie %r was deleted on it but is emitted with value %r' % (label, name, seen[name][:30])
@@ -1183,7 +1294,7 @@ def oracle(case, obs):
     replaced = False                       # the Cookie header was replaced: only independence is checked afterwards
     for i, rd in enumerate(case.get('reads', [])):
         kind = read_kind(rd)
-        if kind in ('sethdr', 'reinit'):
+        if kind in ('sethdr', 'reinit', 'assign'):
             replaced = True
             continue
         if kind == 'copyreq':
@@ -1336,7 +1447,7 @@ PREDICATES = {
 
 def nontrivial(case, obs):
     if case['mode'] == 'resp':
-        return any(o[0] == 'copy' for o in case['ops']) and len(case['ops']) > 2
+        return any(o[0] in ('copy', 'apply') for o in case['ops']) and len(case['ops']) > 1
     if case['mode'] == 'scn':
         if obs.get('st') != 'ok':
             return False
